@@ -3,7 +3,8 @@
   `move_climb` / `move_random` only:
 
       HillClimbingOptimizer, StochasticHillClimbingOptimizer, SimulatedAnnealingOptimizer,
-      RepulsingHillClimbingOptimizer, RandomRestartHillClimbingOptimizer, RandomSearchOptimizer
+      RepulsingHillClimbingOptimizer, RandomRestartHillClimbingOptimizer, RandomSearchOptimizer,
+      RandomAnnealingOptimizer
 
   (`core_optimizer.py`: `random_iteration`, `move_climb`, `conv2pos`, `move_random`, `init_pos`, `evaluate_init`;
    the `iterate` / `evaluate` of the six classes; `search_tracker.py` through GFO.Model.Tracker).
@@ -72,15 +73,16 @@ def moveClimbLoop (g : Geo) : Nat → Pos → Tape → Except Err (Pos × Tape)
     | [] => .error .needMore
     | _ => .error (protocol "move_climb-draw")
 
-/-- `move_climb(pos, epsilon_mod=…)` -/
-def moveClimb (g : Geo) (loc : Option Pos) (epsMod : Rat) (tape : Tape) : Except Err (Pos × Tape) :=
+/-- `move_climb(pos, epsilon_mod=…)`; `epsMod = none`: the value is a float the model does not compute
+    (`RandomAnnealingOptimizer`: `temp = start_temp * annealing_rate ** k` in float arithmetic) and is not checked -/
+def moveClimb (g : Geo) (loc : Option Pos) (epsMod : Option Rat) (tape : Tape) : Except Err (Pos × Tape) :=
   match loc with
   | none => .error (.other "AttributeError")            -- `None.shape`
   | some l =>
     match tape with
     | .climb l' e' :: rest =>
       if l' ≠ l then .error (protocol "move_climb-from-elsewhere")
-      else if e' ≠ epsMod then .error (protocol "epsilon_mod")
+      else if epsMod.isSome ∧ epsMod ≠ some e' then .error (protocol "epsilon_mod")
       else moveClimbLoop g rest.length l rest
     | [] => .error .needMore
     | _ => .error (protocol "move_climb")
@@ -91,6 +93,7 @@ inductive LocalKind where
   | repulsing (factor : Rat)
   | restart (nIterRestart : Nat)
   | randomSearch
+  | randomAnnealing                     -- hill climbing whose step width is scaled by a float temperature (oracle side)
 deriving Repr, DecidableEq, Inhabited
 
 structure LocalCfg where
@@ -118,12 +121,13 @@ def randomIteration (cfg : LocalCfg) (tape : Tape) (k : Tape → Except Err (Pos
 def localPropose (cfg : LocalCfg) (s : Local) : Except Err (Pos × Tape) :=
   match cfg.kind with
   | .hillClimbing | .stochastic =>
-    randomIteration cfg s.tape (moveClimb cfg.geo s.tr.posCurrent 1)
-  | .repulsing _ => moveClimb cfg.geo s.tr.posCurrent s.epsMod s.tape
+    randomIteration cfg s.tape (moveClimb cfg.geo s.tr.posCurrent (some 1))
+  | .randomAnnealing => randomIteration cfg s.tape (moveClimb cfg.geo s.tr.posCurrent none)
+  | .repulsing _ => moveClimb cfg.geo s.tr.posCurrent (some s.epsMod) s.tape
   | .restart n =>
     randomIteration cfg s.tape (fun tape =>
       if s.tr.nthTrial ≠ 0 ∧ s.tr.nthTrial % n = 0 then moveRandomLoop tape
-      else moveClimb cfg.geo s.tr.posCurrent 1 tape)
+      else moveClimb cfg.geo s.tr.posCurrent (some 1) tape)
   | .randomSearch => moveRandomLoop s.tape
 
 def localIterate (cfg : LocalCfg) (s : Local) : Except Err (Pos × Local) := do
@@ -132,7 +136,7 @@ def localIterate (cfg : LocalCfg) (s : Local) : Except Err (Pos × Local) := do
 
 def localEvaluate (cfg : LocalCfg) (s : Local) (score : F) : Except Err Local :=
   match cfg.kind with
-  | .hillClimbing | .restart _ => .ok { s with tr := Tracker.hcEvaluate cfg.nNeighbours s.tr score }
+  | .hillClimbing | .restart _ | .randomAnnealing => .ok { s with tr := Tracker.hcEvaluate cfg.nNeighbours s.tr score }
   | .randomSearch => .ok { s with tr := Tracker.plainEvaluate s.tr score }
   | .repulsing factor =>
     let t := Tracker.hcEvaluate cfg.nNeighbours s.tr score
